@@ -28,6 +28,13 @@ pub fn to_listing(
                 None,
             );
 
+            // A statement that continues on later lines (inside a block comment) is listed on the line it begins on,
+            // and only there: the lookup also answers for the lines in the middle of it
+            let offsets = offsets
+                .into_iter()
+                .filter(|o| ctx.tree().code_map.look_up_span(o.span).begin.line == line_idx)
+                .collect_vec();
+
             let mut data = vec![];
             for offset in &offsets {
                 // The offsets are target addresses: a relocated segment stores its bytes somewhere else
